@@ -1,4 +1,63 @@
-import MetadorModel.Model.Overlay
-/-! # C01 — IH5 overlay is transparent (theorems follow) -/
+import MetadorModel.Proofs.OverlayView
+/-!
+# C01 — IH5 overlay is transparent: patch boundaries are unobservable
+
+Property theorems about `MetadorModel.Overlay` (model of `ih5/overlay.py`: child scan, path
+resolution, write paths) against `MetadorModel.Tree.Spec` (a single plain HDF5-like tree).
+Helper lemmas live in `Proofs/Overlay*.lean`.
+
+Records are lists of containers **newest first**: `p :: r` is the record `r` with the patch
+container `p` added (`r ++ [p]` in file order), `self._files[-1]` is the head.
+
+`viewKind r q` / `viewAttr r q k` are what a user reads at path `q` (group / dataset value,
+attribute `k`); all statements are point-wise in `q` and `k`, for every value type `V`.
+-/
 namespace MetadorModel.C01
+open MetadorModel.Tree MetadorModel.Overlay
+
+variable {V : Type}
+
+/-! ## (a) a patch boundary is unobservable -/
+
+/-- `commit_patch(); create_patch()` changes nothing a user can read — for every record,
+without any invariant. -/
+theorem view_newPatch (r : Rec V) (q : Path) :
+    viewKind (newPatch r) q = viewKind r q ∧ ∀ k, viewAttr (newPatch r) q k = viewAttr r q k :=
+  view_newPatch' r q
+
+example : viewKind (newPatch (newPatch [[([], vnode), (["a"], ⟨.data 5, [("k", some 1)]⟩)]])) ["a"]
+    = some (.data 5) := by decide
+
+/-! ## (b) the overlay is the monoid action of PATCH_THEORY.md -/
+
+/-- **Key lemma.** Reading the record `r` extended by the container `p` is applying the patch
+`p` (closed form `applyKind/applyAttr`: below the shallowest non-virtual entry only `p` counts,
+pass-through groups keep the older node and overlay attributes) to what `r` shows. -/
+theorem view_snoc (p : Cont V) (r : Rec V) (h : Inv (p :: r)) (q : Path) :
+    viewKind (p :: r) q = applyKind p (viewKind r) q ∧
+    ∀ k, viewAttr (p :: r) q k = applyAttr p (viewAttr r) q k :=
+  view_cons p r h.1 h.2.1 q
+
+/-- the tree without containers: just the root group -/
+def emptyK : Path → Option (NKind V) := fun q => if q = [] then some .group else none
+def emptyA : Path → Key → Option V := fun _ _ => none
+
+/-- hence the view of a record is the fold of its containers over the empty tree, oldest first -/
+theorem view_fold (r : Rec V) (h : Inv r) :
+    viewKind r = r.foldr applyKind emptyK ∧ viewAttr r = r.foldr applyAttr emptyA := by
+  induction r with
+  | nil =>
+    refine ⟨funext fun q => ?_, funext fun q => funext fun k => ?_⟩
+    · cases q with
+      | nil => rfl
+      | cons a q => simp [viewKind, look, lookFrom, child, scan, emptyK, vnode, RKind.isGroup]
+    · cases q with
+      | nil => rfl
+      | cons a q => simp [viewAttr, look, lookFrom, child, scan, emptyA, vnode, RKind.isGroup]
+  | cons p r ih =>
+    obtain ⟨ih1, ih2⟩ := ih h.2.2
+    refine ⟨funext fun q => ?_, funext fun q => funext fun k => ?_⟩
+    · rw [(view_snoc p r h q).1, List.foldr_cons, ih1]
+    · rw [(view_snoc p r h q).2 k, List.foldr_cons, ih2]
+
 end MetadorModel.C01
